@@ -56,6 +56,8 @@ type SendStep struct {
 	CancelPoint string
 	CancelOcc   int
 	Actions     []byte
+	CtxKind     int            // context flavour, see sched.WithKind
+	ErrKinds    map[string]int // by node id: flavour of the error a failing node returns
 }
 
 func (s *SendStep) String() string {
@@ -67,7 +69,14 @@ func (s *SendStep) String() string {
 	}
 	sort.Strings(ks)
 	c := [...]string{"live", "precancelled", "cancel@" + s.CancelPoint + fmt.Sprintf("#%d", s.CancelOcc)}[s.Ctx]
-	return fmt.Sprintf("Send(%s,{%s},%s)", s.ET, strings.Join(ks, ","), c)
+	var eks []string
+	for k, v := range s.ErrKinds {
+		if v != 0 {
+			eks = append(eks, fmt.Sprintf("%s:errkind%d", k, v))
+		}
+	}
+	sort.Strings(eks)
+	return fmt.Sprintf("Send(%s,{%s},%s,ctxkind%d%s)", s.ET, strings.Join(ks, ","), c, s.CtxKind, strings.Join(eks, ","))
 }
 
 type Step struct {
@@ -94,7 +103,7 @@ func DescribeSteps(steps []Step) string {
 func Setup(t *rapid.T) []model.Op {
 	var ops []model.Op
 	for _, id := range Pool() {
-		op := model.Op{K: "regnode", N: id, NT: IntendedType(id)}
+		op := model.Op{K: "regnode", N: id, NT: IntendedType(id), Shape: rapid.SampledFrom([]int{0, 0, 0, 1, 2, 3}).Draw(t, "shape-"+id)}
 		if id[0] == 's' {
 			op.SinkRet = rapid.IntRange(0, 2).Draw(t, "sinkRet-"+id) == 0
 		}
@@ -138,6 +147,13 @@ func GenSend(t *rapid.T, distinctRoots bool, cancelWeight int) *SendStep {
 		s.Ctx = 1
 	}
 	s.Actions = rapid.SliceOfN(rapid.SampledFrom([]byte{0, 0, 0, 1, 1, 2, 3}), 0, 12).Draw(t, "actions")
+	s.CtxKind = rapid.SampledFrom([]int{0, 0, 1, 1, 2, 3}).Draw(t, "ctxKind")
+	s.ErrKinds = map[string]int{}
+	for id, b := range s.Script {
+		if b == nodes.Fail || b == nodes.FailEv {
+			s.ErrKinds[id] = rapid.SampledFrom([]int{nodes.ErrPlain, nodes.ErrPlain, nodes.ErrMultiAgg, nodes.ErrMultiNil, nodes.ErrJoined, nodes.ErrWrapped}).Draw(t, "errKind-"+id)
+		}
+	}
 	return s
 }
 
@@ -154,10 +170,10 @@ func GenSteps(t *rapid.T, n int, distinctRoots bool, cancelWeight int) []Step {
 		case 2:
 			return Step{Op: &model.Op{K: "rmpipe", ET: rapid.SampledFrom(Types).Draw(t, "et"), P: rapid.SampledFrom(PipeIDs).Draw(t, "pid")}}
 		case 3:
-			return Step{Op: &model.Op{K: "rpan", ET: rapid.SampledFrom(Types).Draw(t, "et"), P: rapid.SampledFrom(PipeIDs).Draw(t, "pid")}}
+			return Step{Op: &model.Op{K: "rpan", ET: rapid.SampledFrom(Types).Draw(t, "et"), P: rapid.SampledFrom(PipeIDs).Draw(t, "pid"), CtxDone: rapid.IntRange(0, 4).Draw(t, "ctxDone") == 0}}
 		default:
 			id := rapid.SampledFrom(Pool()).Draw(t, "nid")
-			op := model.Op{K: "regnode", N: id, NT: IntendedType(id)}
+			op := model.Op{K: "regnode", N: id, NT: IntendedType(id), Shape: rapid.SampledFrom([]int{0, 0, 0, 1, 2, 3}).Draw(t, "shape"), Reuse: rapid.IntRange(0, 5).Draw(t, "reuse") == 0}
 			if id[0] == 's' {
 				op.SinkRet = rapid.Bool().Draw(t, "sinkRet")
 			}
@@ -174,6 +190,17 @@ func GenSteps(t *rapid.T, n int, distinctRoots bool, cancelWeight int) []Step {
 		pre = append(pre, Step{Op: &op})
 	}
 	return append(pre, rapid.SliceOfN(stepGen, 1, n).Draw(t, "steps")...)
+}
+
+// ErrKindsFor converts the by-id error flavours into a by-instance map.
+func ErrKindsFor(x *model.Exec, byID map[string]int) map[*nodes.N]int {
+	m := map[*nodes.N]int{}
+	for _, n := range x.All {
+		if k, ok := byID[n.ID]; ok {
+			m[n] = k
+		}
+	}
+	return m
 }
 
 // ScriptFor converts a by-id script into a by-instance script over all instances.
